@@ -84,8 +84,8 @@ CHECKS["C08"] = dict(
 
 CHECKS["C20"] = dict(
     engine="symx+z3",
-    technique="bounded symbolic execution (symx/z3): f_lasti symbolic over every reachable suspension offset through the real referents implementation with a validated collector model; symbolic (unbounded) index of the faulted step inside the trickery analysis on really suspended frames; solver-enumerated set_trickery_enabled sequences",
-    text="(1) For every code object of the C01 corpus and every reachable suspension offset the referents answer contains every active manager in order with right obj/is_async, an is_exiting entry exactly when an exit call is in progress, and extras only for the manager being entered/exited. (2) For 4 programs driven through all their suspensions, a fault at ANY step k of analyze_with_blocks / inspect_frame / currently_exiting_context / the join yields the referents answer, exactly one InspectionWarning and no exception. (1b) About 70 programs of all kinds driven for real with trickery disabled: at the suspension whose index equals a symbolic (unbounded) integer, the real referents answer on the real frame with its real origin is judged against the managers' event log. (3) All sequences of length <= 3 (4) over True/False/None select the documented mode, observed on the calling and on another thread.",
+    technique="bounded symbolic execution (symx/z3): f_lasti symbolic over every reachable suspension offset through the real referents implementation with a validated collector model; symbolic (unbounded) index of the faulted step inside the trickery analysis on really suspended frames; solver-enumerated set_trickery_enabled sequences and nestings of two reentrant manager objects",
+    text="(1) For every code object of the C01 corpus and every reachable suspension offset the referents answer contains every active manager in order with right obj/is_async, an is_exiting entry exactly when an exit call is in progress, and extras only for the manager being entered/exited. (2) For 4 programs driven through all their suspensions, a fault at ANY step k of analyze_with_blocks / inspect_frame / currently_exiting_context / the join yields the referents answer, exactly one InspectionWarning and no exception. (1b) About 70 programs of all kinds driven for real with trickery disabled: at the suspension whose index equals a symbolic (unbounded) integer, the real referents answer on the real frame with its real origin is judged against the managers' event log. (3) All sequences of length <= 3 (4) over True/False/None select the documented mode, observed on the calling and on another thread. (4) 1..3 (thorough 4) nested with / async with blocks over two reentrant manager objects in any repetition: one entry per active block, in order, in referents mode and in default mode.",
     note="Obligation 1 assumes the collector reports a frame's locals then its value stack bottom-up; this is validated against the real collector on really suspended generators in the run (mismatch = exit 2). Findings produced by this check: F2 sites (shared exiting-block matcher; repaired) and F13 (managers whose __exit__ is implemented in C were missing in referents mode; repaired, fix: edb075d). CPython 3.12 and 3.11.",
     ref="DESIGN.md 5.C20",
 )
@@ -101,7 +101,7 @@ CHECKS["C02"] = dict(
 CHECKS["C03"] = dict(
     engine="symx+z3",
     technique="bounded symbolic execution (symx/z3) of the real extract and built-in unwrappers over solver-enumerated link kinds per chain position; oracle = traceback of an exception thrown into the same object",
-    text="All chains of depth 0..3 (thorough 4) over 9 await link kinds (native coroutine, @types.coroutine, __await__ returning a coroutine wrapper / a generator, async-generator asend / __anext__ / async for / athrow / aclose) or 2 yield-from kinds, trap or plain-iterator terminal, coroutine / generator / async-generator roots, with and without a completed await before the suspension: frames (identity and line numbers) equal the traceback of a thrown exception, leaf/root/exhaustion/with_contexts as stated.",
+    text="All chains of depth 0..3 (thorough 4) over 10 await link kinds (native coroutine, @types.coroutine, __await__ returning a coroutine wrapper / a generator, async-generator asend / __anext__ / async for / athrow / aclose / asend of a value that is itself a started async generator) or 2 yield-from kinds, trap or plain-iterator terminal, coroutine / generator / async-generator roots, with and without a completed await before the suspension: frames (identity and line numbers) equal the traceback of a thrown exception, leaf/root/exhaustion/with_contexts as stated.",
     note="LOW SOLVER LEVERAGE: no branch of the implementation depends on a number here; the solver enumerates a finite product and certifies it complete. async_generator backport links are outside.",
     ref="DESIGN.md 5.C03",
 )
@@ -132,7 +132,7 @@ CHECKS["C19"] = dict(
 CHECKS["C15"] = dict(
     engine="symx+z3",
     technique="bounded symbolic execution (symx/z3) of the real greenlet glue + StackSlice slicing over solver-enumerated scenarios on real greenlets; oracle = shadow call log / gr_frame f_back walk",
-    text="Greenlets: parent chains of 1..3 (thorough 4) nested greenlets with 0..2 (3) calls each; target any greenlet of the chain; asked from the main greenlet, from the target itself and from a descendant (0..1 calls deeper); unstarted, dead and running-in-another-thread greenlets: exactly the target's own frames / no frames / a RuntimeError in .error; the current greenlet with a main / unstarted / dead parent. Greenback: sync/async alternation depth 0..3 (thorough 6) through await_ inside a Trio task with a portal (a real deterministic trio.run per path), observed from another task and from the innermost level: the visible frames are exactly the levels in order, bridging internals hidden.",
+    text="Greenlets: parent chains of 1..3 (thorough 4) nested greenlets with 0..2 (3) calls each; target any greenlet of the chain; asked from the main greenlet, from the target itself (also directly from its entry function, whose frame has no f_back) and from a descendant (0..1 calls deeper); unstarted, dead and running-in-another-thread greenlets: exactly the target's own frames / no frames / a RuntimeError in .error; the current greenlet with a main / unstarted / dead parent. Greenback: sync/async alternation depth 0..3 (thorough 6) through await_ inside a Trio task with a portal (a real deterministic trio.run per path), observed from another task and from the innermost level: the visible frames are exactly the levels in order, bridging internals hidden.",
     note="LOW SOLVER LEVERAGE. PyPy greenlets, greenback.async_context and free-running threads are outside.",
     ref="DESIGN.md 5.C15",
 )
@@ -148,7 +148,7 @@ CHECKS["C09"] = dict(
 CHECKS["C14"] = dict(
     engine="symx+z3",
     technique="bounded symbolic execution (symx/z3) of the real Trio glue over solver-enumerated task-tree shapes and thread-hop chains, each path a deterministic real trio.run; oracle = Trio's own child_nurseries / child_tasks and the construction order of the hops",
-    text="Task trees of depth <= 2 (thorough 3), fan-out <= 2, <= 2 nested nurseries per task (57 shapes quick, several hundred thorough), each task blocked in its innermost body or in a nursery's __aexit__, 5 nursery-body shapes (plain, try/finally, try/except, conditional return, two nested nurseries in one frame), recurse_child_tasks on/off: each open nursery appears once in nesting order with obj the trio.Nursery and children exactly its child tasks (by root identity), recursively, no error, no warning. to_thread/from_thread alternation depth 0..3 (thorough 5), observed by another task and by the innermost level: the visible frames continue through every level in order with the bridging internals hidden.",
+    text="Task trees of depth <= 2 (thorough 3), fan-out <= 2, <= 2 nested nurseries per task (57 shapes quick, several hundred thorough), each task blocked in its innermost body or in a nursery's __aexit__, 8 nursery-body shapes (plain, try/finally, try/except, conditional return, two nested nurseries in one frame, nursery opened through an @asynccontextmanager helper, children started with nursery.start() after started(), a last child still inside nursery.start() before started()), recurse_child_tasks on/off: each open nursery appears once in nesting order with obj the trio.Nursery and children exactly its child tasks (by root identity), recursively, no error, no warning. to_thread/from_thread alternation depth 0..3 (thorough 5), observed by another task and by the innermost level: the visible frames continue through every level in order with the bridging internals hidden.",
     note="LOW SOLVER LEVERAGE. Every run is deterministic: tasks observed after wait_all_tasks_blocked(), threads parked on Events; free-running threads are outside. Hop chains are rooted in a Trio task or in a foreign thread calling from_thread.run(trio_token=...); the foreign root at depth >= 3 produced finding F12 (repaired, fix: 0ae3ae7). F2 shapes (nursery body ending in try/except or `if: return`, task blocked in that nursery's __aexit__) were reported through the shared classifier until F2 was repaired. DESIGN.md 5.C14 explains why this was first declared not applicable and what changed.",
     ref="DESIGN.md 0a / 5.C14",
 )
